@@ -54,7 +54,9 @@ TECHNIQUE = "runtime monitoring: DAG-reachability oracle over generated commit h
 BRANCH_NAMES = ["origin/release/1.0", "origin/release/1.10", "origin/release/1.2", "origin/release/2.0",
                 "origin/release/10.1", "origin/release/9.9", "origin/master", "origin/main",
                 "origin/release/1.2.1", "origin/release/1.02", "origin/release/2-9", "origin/release/2-10",
-                "origin/release/3_1", "origin/release/3_10", "origin/release/rc-2", "origin/release/rc-10"]
+                "origin/release/3_1", "origin/release/3_10", "origin/release/rc-2", "origin/release/rc-10",
+                # (two spellings of one version: different branches that sort alike)
+                "origin/release/1_2", "origin/release/2.9", "origin/release/3-1"]
 # (a search text may span a line break of the message)
 # ... or be typed in the wrong case: it then occurs in no message and nothing is reported
 TEXTS = ["BUG-7", "BUG-71", "fix", "BUG-7 ", " change", "fix ", "\n\nrelated to BUG-7", "\nrelated", "bug-7", "Fix",
@@ -94,8 +96,8 @@ def gen_history(rng, max_commits=25):
     seen_keys = set()
     for nm in list(names):
         k = repr(mg.branch_sort_key(nm)) if mg.short_branch(nm) != "master" else nm     # (two trunks may coexist)
-        if k in seen_keys:
-            names.remove(nm)     # same sort key (1.2 / 1.02): order unspecified
+        if k in seen_keys and n % 2:
+            names.remove(nm)     # same sort key (1.2 / 1.02): order unspecified - half of the histories keep both
         seen_keys.add(k)
     if rng.random() < 0.2:
         # refs of the same remote that are neither the trunk nor release branches (their own commits are nobody's
@@ -312,7 +314,18 @@ def judge(ctx, repo, text, case, repos=None, repo_id=None):
             ctx.violation("by-name-view-of-the-report-differs-from-its-branches",
                           {"branches": [br.branch_name for br in rgraph.branches], "by_name": list(by_name)}, case)
             return
-    if not both_trunks:
+    rel_keys = [repr(mg.branch_sort_key(b)) for b in repo.branches if b.startswith("origin/release/")]
+    if not both_trunks and len(set(rel_keys)) != len(rel_keys):
+        # two release branches whose names sort alike: both are reported, in either order
+        ctx.count("histories_with_two_branches_that_sort_alike")
+        best = None
+        for rev in (False, True):
+            order, exp = mg.branch_oracle(repo, ties_reversed=rev)
+            found, listed = branch_problems(lambda *a: None, repo, rgraph, matching, tagged, order, exp, None)
+            if best is None or len(found) < len(best[0]):
+                best = (found, order, exp, listed)
+        problems, order, exp, listed_by_branch = best
+    elif not both_trunks:
         order, exp = mg.branch_oracle(repo)
         problems, listed_by_branch = branch_problems(ctx.count, repo, rgraph, matching, tagged, order, exp, None)
     else:
@@ -410,6 +423,26 @@ def with_component_case(ctx, rng, case=None):
     judge(ctx, par, case["text"], case, repos, repo_id='par')
 
 
+def cutoff_boundary_case(ctx, rng):
+    """the head of a higher-sorted branch is EXACTLY thirty days older than the only build of the lower-sorted branch
+    (the last moment inside the window): a line of commits, the old branch points at its first commit"""
+    m = rng.randint(3, 6)
+    t0 = 1_600_000_000 + rng.randrange(10 ** 6)
+    commits, prev = {}, None
+    for cid in range(1, m + 1):
+        ts = t0 if cid == 1 else t0 + 30 * 86400 - (m - cid) * rng.choice([1, 60, 3600])
+        msg = "BUG-7 c%d" % cid if (cid == 2 or rng.random() < 0.5) else "misc %d" % cid
+        commits[cid] = mg.Commit("r", cid, [prev] if prev else [], msg, ts, {})
+        prev = commits[cid]
+    low, high = rng.choice([("origin/release/1.0", "origin/release/2.0"), ("origin/release/1.9", "origin/release/1.10"),
+                            ("origin/release/3.0", "origin/master")])
+    heads = {low: m, high: 1}
+    tags = {"build_1_release_1_0_success": m} if rng.random() < 0.6 else {}
+    repo = mg.Repo("r", commits, heads, tags)
+    ctx.count("histories_with_a_head_exactly_thirty_days_before_the_first_reported_build")
+    judge(ctx, repo, "BUG-7", {"repo": mg.describe(repo), "text": "BUG-7", "cutoff_boundary": True})
+
+
 def long_history_case(ctx, n=1500):
     """a trunk of n commits in a line, every third one matching, a build tag every hundred commits"""
     commits, tags = {}, {}
@@ -436,6 +469,7 @@ def run_shard(ctx):
             if i % 8 == 5:
                 for _ in range(4):
                     with_component_case(ctx, rng)
+                cutoff_boundary_case(ctx, rng)
                 continue
             repo = gen_history(rng, 25 if ctx.tier == "quick" else rng.choice([12, 25, 40]))
             descr = mg.describe(repo)
